@@ -18,10 +18,11 @@ pub mod c16;
 pub mod c17;
 pub mod c18;
 pub mod c19;
+pub mod c20;
 pub mod union;
 pub mod frontends;
 pub mod selftest;
 
 pub fn registry() -> Vec<Box<dyn DynProperty>> {
-    vec![entry(c01::C01), entry(c02::C02), entry(c03::C03), entry(c05::C05), entry(c06::C06), entry(c07::C07), entry(c08::C08), entry(c09::C09), entry(c10::C10), entry(c11::C11), entry(c12::C12), entry(c13::C13), entry(c14::C14), entry(c15::C15), entry(c16::C16), entry(c17::C17), entry(c18::C18), entry(c19::C19)]
+    vec![entry(c01::C01), entry(c02::C02), entry(c03::C03), entry(c05::C05), entry(c06::C06), entry(c07::C07), entry(c08::C08), entry(c09::C09), entry(c10::C10), entry(c11::C11), entry(c12::C12), entry(c13::C13), entry(c14::C14), entry(c15::C15), entry(c16::C16), entry(c17::C17), entry(c18::C18), entry(c19::C19), entry(c20::C20)]
 }
